@@ -58,6 +58,12 @@ enum Op {
 }
 
 impl Op {
+    fn upload_index(&self) -> Option<usize> {
+        match self {
+            Op::UploadPart(u, ..) | Op::UploadPartCopy(u, ..) | Op::Complete(u, ..) | Op::Abort(u, ..) => Some(*u),
+            _ => None,
+        }
+    }
     fn label(&self) -> String {
         match self {
             Op::CreateBucket(b) => format!("CreateBucket({b})"),
@@ -86,6 +92,33 @@ struct Universe {
     part_contents: Vec<Arc<Vec<u8>>>,
     max_uploads_ever: usize,
     max_parts: i32,
+    /// multipart-only universe: one bucket, one key, one identity; the content of a part is a function of its number (a
+    /// part of the backend's minimum size plus its number, or a few bytes), so that parts put together in another order,
+    /// or another part's bytes under a number, give another object
+    mp_only: bool,
+    /// the part lists a completion may name (empty: [1] and, with two parts, [1, 2])
+    complete_lists: Vec<Vec<i32>>,
+    /// not searched breadth-first: this one history is executed (its labels), the read set after every step
+    directed: Option<Vec<Op>>,
+}
+
+const MIN_PART: usize = 5 * 1024 * 1024;
+
+/// content of part `n` in a multipart-only universe: `big` = the backend's minimum part size plus n bytes of a pattern
+/// that depends on n; small = "s<n>"
+fn part_content(n: i32, big: bool) -> Arc<Vec<u8>> {
+    static CACHE: std::sync::OnceLock<std::sync::Mutex<BTreeMap<(i32, bool), Arc<Vec<u8>>>>> = std::sync::OnceLock::new();
+    let mut g = CACHE.get_or_init(Default::default).lock().unwrap();
+    g.entry((n, big))
+        .or_insert_with(|| {
+            if big {
+                let m = 251 - n as u32;
+                Arc::new((0..(MIN_PART as u32 + n as u32)).map(|i| ((i.wrapping_mul(n as u32 + 1)) % m) as u8).collect())
+            } else {
+                Arc::new(format!("s{n}").into_bytes())
+            }
+        })
+        .clone()
 }
 
 /// The universes searched in a tier, one breadth-first search each (from the empty store).
@@ -105,8 +138,11 @@ fn universes(tier: Tier) -> Vec<Universe> {
             part_contents: vec![],
             max_uploads_ever: 0,
             max_parts: 0,
-        }],
-        Tier::Thorough => vec![universe(tier)],
+            mp_only: false,
+            complete_lists: vec![],
+            directed: None,
+        }, mp_universe(tier), eleven_parts()],
+        Tier::Thorough => vec![universe(tier), mp_universe(tier), eleven_parts()],
     }
 }
 
@@ -125,6 +161,9 @@ fn universe(tier: Tier) -> Universe {
             part_contents: vec![Arc::new(b"PQ".to_vec())],
             max_uploads_ever: 1,
             max_parts: 1,
+            mp_only: false,
+            complete_lists: vec![],
+            directed: None,
         },
         Tier::Thorough => Universe {
             name: "thorough",
@@ -136,7 +175,54 @@ fn universe(tier: Tier) -> Universe {
             part_contents: vec![Arc::new(b"P".to_vec()), Arc::new(b"QQ".to_vec())],
             max_uploads_ever: 1,
             max_parts: 2,
+            mp_only: false,
+            complete_lists: vec![],
+            directed: None,
         },
+    }
+}
+
+/// "a completed multipart upload is the concatenation of its parts in part order": the backend refuses a completion whose
+/// parts other than the last are below 5 MiB, so the parts of this universe are that large. Every order of uploading
+/// (and re-uploading) parts 1..3, big or small, is reached by the search; completions name [1], [1,2], [1,2,3] and [2,1].
+fn mp_universe(tier: Tier) -> Universe {
+    Universe {
+        name: "multipart-order",
+        buckets: vec!["bkt-one".into()],
+        keys: vec!["k1 +%é~".into()],
+        other_keys: 1,
+        contents: vec![],
+        metas: vec![None],
+        part_contents: vec![],
+        max_uploads_ever: tier.pick(1, 2),
+        max_parts: 3,
+        mp_only: true,
+        complete_lists: vec![vec![1], vec![1, 2], vec![1, 2, 3], vec![2, 1]],
+        directed: None,
+    }
+}
+
+/// one history: parts 11, 10, ... 1 uploaded in descending order (two-digit part numbers sort before one-digit ones as
+/// text), completed as [1..11]
+fn eleven_parts() -> Universe {
+    let mut ops = vec![Op::CreateBucket("bkt-one".into()), Op::CreateMpu("bkt-one".into(), "k1 +%é~".into(), "alice".into(), None)];
+    for n in (1..=11).rev() {
+        ops.push(Op::UploadPart(0, n, part_content(n, n != 11), "alice".into()));
+    }
+    ops.push(Op::Complete(0, (1..=11).collect(), "alice".into()));
+    Universe {
+        name: "eleven-parts-uploaded-in-descending-order",
+        buckets: vec!["bkt-one".into()],
+        keys: vec!["k1 +%é~".into()],
+        other_keys: 1,
+        contents: vec![],
+        metas: vec![None],
+        part_contents: vec![],
+        max_uploads_ever: 1,
+        max_parts: 11,
+        mp_only: true,
+        complete_lists: vec![(1..=11).collect()],
+        directed: Some(ops),
     }
 }
 
@@ -148,6 +234,25 @@ impl Universe {
 
 fn ops_for(u: &Universe, m: &Model) -> Vec<Op> {
     let mut v = Vec::new();
+    if u.mp_only {
+        let (b, k) = (u.buckets[0].clone(), u.keys[0].clone());
+        v.push(Op::CreateBucket(b.clone()));
+        if m.uploads_created < u.max_uploads_ever && m.uploads.is_empty() {
+            v.push(Op::CreateMpu(b.clone(), k.clone(), "alice".to_owned(), None));
+        }
+        for (ui, _) in m.uploads.iter().enumerate() {
+            for n in 1..=u.max_parts {
+                for big in [true, false] {
+                    v.push(Op::UploadPart(ui, n, part_content(n, big), "alice".to_owned()));
+                }
+            }
+            for l in &u.complete_lists {
+                v.push(Op::Complete(ui, l.clone(), "alice".to_owned()));
+            }
+            v.push(Op::Abort(ui, "alice".to_owned()));
+        }
+        return v;
+    }
     for b in &u.buckets {
         v.push(Op::CreateBucket(b.clone()));
         v.push(Op::DeleteBucket(b.clone()));
@@ -376,8 +481,13 @@ fn apply(fs: &FileSystem, m: &mut Model, op: &Op) -> Vec<Bad> {
                 let all_present = parts.iter().all(|n| up.parts.contains_key(n));
                 match (&r, all_present) {
                     (Ok(out), true) => {
+                        // "the concatenation of its parts in part order": ascending part number (a list in another order is
+                        // refused by S3 and by the unchanged backend; if one is accepted, the order of the numbers still decides)
                         let mut content = Vec::new();
-                        for n in parts {
+                        let mut in_order: Vec<i32> = parts.clone();
+                        in_order.sort_unstable();
+                        in_order.dedup();
+                        for n in &in_order {
                             content.extend_from_slice(&up.parts[n]);
                         }
                         let want = format!("\"{}\"", md5_hex(&content));
@@ -470,6 +580,10 @@ fn read_set(fs: &FileSystem, m: &Model, u: &Universe, bad: &mut Vec<Bad>) -> u64
                     ranges.push(Some(Range::Int { first: 4095, last: Some(4097) }));
                     ranges.push(Some(Range::Int { first: 4096, last: None }));
                     ranges.push(Some(Range::Suffix { length: 4097 }));
+                }
+                if len > MIN_PART as u64 + 8 {
+                    // across the seam between the first and the second part of a multipart object
+                    ranges.push(Some(Range::Int { first: MIN_PART as u64 - 1, last: Some(MIN_PART as u64 + 6) }));
                 }
                 for r in ranges {
                     reads += 1;
@@ -674,41 +788,50 @@ pub fn run(ctx: &Ctx) -> (Acc, Report) {
     let mut acc = ctx.acc();
     let us = universes(ctx.tier);
     let scratch = Scratch::new("c18");
-    let wall_cap = std::time::Duration::from_secs(ctx.tier.pick(90, 600));
+    let wall_cap = std::time::Duration::from_secs(ctx.tier.pick(300, 900));
     let max_depth = ctx.tier.pick(usize::MAX, usize::MAX);
 
     // replay of one history (a witness): the operation labels are re-executed from the empty store
     if let Some(r) = &ctx.replay {
         let labels: Vec<&str> = r.strip_prefix("history=").unwrap_or(r).split(" ; ").filter(|l| !l.is_empty()).collect();
-        // the universe the history belongs to: the first one whose operation alphabet contains every label
-        let u = us.iter().find(|u| {
-            let mut m = Model::default();
-            let mut sink = std::collections::BTreeSet::new();
-            // labels of all operations of this universe in any multipart phase
-            for o in ops_for(u, &m) {
-                sink.insert(o.label());
+        // the universe the history belongs to: the first one in which every operation of the history is enabled when its turn comes
+        let mut chosen: Option<(Vec<String>, Vec<(String, Bad)>, u64)> = None;
+        for (ui, u) in us.iter().enumerate() {
+            let dir = scratch.path.join(format!("replay{ui}"));
+            std::fs::create_dir_all(&dir).expect("dir");
+            let fs = FileSystem::new(&dir).expect("fs");
+            let mut model = Model::default();
+            let mut path: Vec<String> = Vec::new();
+            let mut bads: Vec<(String, Bad)> = Vec::new();
+            let mut evals = 0u64;
+            let mut enabled = true;
+            for l in &labels {
+                let cands: Vec<Op> = match &u.directed {
+                    Some(ops) => ops.clone(),
+                    None => ops_for(u, &model),
+                };
+                let Some(op) = cands.into_iter().find(|o| o.label() == *l && o.upload_index().is_none_or(|i| i < model.uploads.len())) else {
+                    enabled = false;
+                    break;
+                };
+                path.push(op.label());
+                for b in apply(&fs, &mut model, &op) {
+                    bads.push((op.label(), b));
+                }
+                let mut rb = Vec::new();
+                evals += 1 + read_set(&fs, &model, u, &mut rb);
+                for b in rb {
+                    bads.push(("<read set>".into(), b));
+                }
             }
-            m.uploads_created = 0;
-            labels.iter().all(|l| sink.contains(*l) || l.starts_with("UploadPart") || l.starts_with("Complete") || l.starts_with("Abort"))
-        }).unwrap_or(&us[0]);
-        let dir = scratch.path.join("replay");
-        std::fs::create_dir_all(&dir).expect("dir");
-        let fs = FileSystem::new(&dir).expect("fs");
-        let mut model = Model::default();
-        let mut path: Vec<String> = Vec::new();
-        let mut bads: Vec<(String, Bad)> = Vec::new();
-        for l in labels {
-            let Some(op) = ops_for(u, &model).into_iter().find(|o| o.label() == l) else { machinery_failure(&format!("replay: operation {l} is not enabled in the replayed state")) };
-            path.push(op.label());
-            for b in apply(&fs, &mut model, &op) {
-                bads.push((op.label(), b));
-            }
-            let mut rb = Vec::new();
-            acc.evals += 1 + read_set(&fs, &model, u, &mut rb);
-            for b in rb {
-                bads.push(("<read set>".into(), b));
+            let _ = std::fs::remove_dir_all(&dir);
+            if enabled {
+                chosen = Some((path, bads, evals));
+                break;
             }
         }
+        let Some((path, bads, evals)) = chosen else { machinery_failure("replay: the history is not enabled in any universe of this tier") };
+        acc.evals += evals;
         acc.replay_hits = 1;
         for (op, b) in bads {
             acc.fail(&format!("C18/{}", b.kind), path.len() as u64, r.clone(), format!("on {op}: {}", b.msg), json!({"history": path}));
@@ -727,6 +850,42 @@ pub fn run(ctx: &Ctx) -> (Acc, Report) {
     for (ui, u) in us.iter().enumerate() {
     let states_before = states;
     let transitions_before = transitions;
+    if let Some(ops) = &u.directed {
+        // one history on one live tree; the answers and the full read set are judged after every step
+        let dir = scratch.path.join(format!("directed{ui}"));
+        std::fs::create_dir_all(&dir).expect("dir");
+        let fs = FileSystem::new(&dir).expect("fs");
+        let mut model = Model::default();
+        let mut path: Vec<String> = Vec::new();
+        for op in ops {
+            path.push(op.label());
+            let mut bads: Vec<(String, Bad)> = Vec::new();
+            match std::panic::catch_unwind(std::panic::AssertUnwindSafe(|| apply(&fs, &mut model, op))) {
+                Ok(b) => bads.extend(b.into_iter().map(|x| (op.label(), x))),
+                Err(_) => bads.push((op.label(), Bad { kind: "backend-panics".into(), msg: "panic".into() })),
+            }
+            let mut rb = Vec::new();
+            match std::panic::catch_unwind(std::panic::AssertUnwindSafe(|| read_set(&fs, &model, u, &mut rb))) {
+                Ok(n) => {
+                    reads += n;
+                    acc.evals += n;
+                }
+                Err(_) => rb.push(Bad { kind: "backend-panics".into(), msg: "a read of the read set panicked".into() }),
+            }
+            bads.extend(rb.into_iter().map(|x| ("<read set>".to_owned(), x)));
+            states += 1;
+            transitions += 1;
+            acc.evals += 1;
+            acc.nontrivial(fnv(format!("{}#{}", u.name, path.len()).as_bytes()));
+            max_depth_seen = max_depth_seen.max(path.len());
+            for (opl, b) in bads {
+                acc.fail(&format!("C18/{}", b.kind), path.len() as u64, format!("history={}", path.join(" ; ")), format!("after [{}] on {opl}: {}", path.join(" ; "), b.msg), json!({"history": path}));
+            }
+        }
+        let _ = std::fs::remove_dir_all(&dir);
+        per_universe.push(json!({"universe": u.name, "one_history": path, "states": states - states_before, "transitions": transitions - transitions_before, "fixpoint_reached": true}));
+        continue;
+    }
     let mut seen: HashSet<u64> = HashSet::new();
     let mut frontier: VecDeque<State> = VecDeque::new();
     let init = State { model: Model::default(), disk: Snapshot::new(), depth: 0, path: None };
@@ -837,13 +996,13 @@ pub fn run(ctx: &Ctx) -> (Acc, Report) {
         acc.nontrivial(*h ^ (ui as u64).wrapping_mul(0x9E37_79B9_7F4A_7C15));
     }
     frontier_left += frontier.len();
-    per_universe.push(json!({"universe": u.name, "buckets": u.buckets, "keys": u.keys, "keys_in_the_other_buckets": u.other_keys, "content_sizes": u.contents.iter().map(|c| c.len()).collect::<Vec<_>>(), "metadata_values": u.metas.len(), "multipart_uploads_per_history": u.max_uploads_ever, "states": states - states_before, "transitions": transitions - transitions_before, "fixpoint_reached": frontier.is_empty()}));
+    per_universe.push(json!({"universe": u.name, "buckets": u.buckets, "keys": u.keys, "keys_in_the_other_buckets": u.other_keys, "content_sizes": u.contents.iter().map(|c| c.len()).collect::<Vec<_>>(), "metadata_values": u.metas.len(), "multipart_uploads_per_history": u.max_uploads_ever, "parts_per_upload": u.max_parts, "part_lists_of_a_completion": u.complete_lists, "part_content_is_a_function_of_its_number(5 MiB + n bytes | 2 bytes)": u.mp_only, "states": states - states_before, "transitions": transitions - transitions_before, "fixpoint_reached": frontier.is_empty()}));
     }
     let u = &us[0];
     acc.outcome(if capped { "search capped by wall clock" } else { "frontier emptied (fixpoint)" });
     let rep = Report {
         level: "model_checking",
-        rule: format!("explicit-state BFS over (reference model, disk snapshot) with the real s3s_fs::FileSystem as transition function, one search per universe (all listed under coverage.universes; quick: a one-bucket universe with multipart, and a two-bucket universe with the same two keys in both buckets, one content, with and without metadata, for every cross-bucket copy); first universe: buckets {:?}, keys {:?}, contents of {:?} bytes, metadata {{none, m}}, identities {{alice, bob}}, at most {} multipart upload per history with parts <= {}; transitions: create/delete bucket, put, delete, delete-objects, copy, create/abort/complete multipart, upload-part, upload-part-copy; in every reached state the full read set: GetObject for every key x 10-13 Range forms (none, 0-0, 0-, 1-2, last byte, first = length, last beyond end, suffix 1, suffix 0, suffix > length, 4 KiB buffer edges), HeadObject, ListObjects and ListObjectsV2 x 5 prefixes x 4 start-after values, ListBuckets, ListParts. Distinct states by canonical hash (model + disk with upload UUIDs renamed, mtimes dropped).", u.buckets, u.keys, u.contents.iter().map(|c| c.len()).collect::<Vec<_>>(), u.max_uploads_ever, u.max_parts),
+        rule: format!("explicit-state BFS over (reference model, disk snapshot) with the real s3s_fs::FileSystem as transition function, one search per universe (all listed under coverage.universes; quick: a one-bucket universe with multipart, a two-bucket universe with the same two keys in both buckets, one content, with and without metadata, for every cross-bucket copy, a multipart-order universe - parts 1..3 of one upload, each of the backend's minimum part size plus its number or 2 bytes, uploaded and re-uploaded in every order, completed as [1], [1,2], [1,2,3], [2,1]: the object is the concatenation in part order - and one history of eleven parts uploaded in descending order); first universe: buckets {:?}, keys {:?}, contents of {:?} bytes, metadata {{none, m}}, identities {{alice, bob}}, at most {} multipart upload per history with parts <= {}; transitions: create/delete bucket, put, delete, delete-objects, copy, create/abort/complete multipart, upload-part, upload-part-copy; in every reached state the full read set: GetObject for every key x 10-13 Range forms (none, 0-0, 0-, 1-2, last byte, first = length, last beyond end, suffix 1, suffix 0, suffix > length, 4 KiB buffer edges), HeadObject, ListObjects and ListObjectsV2 x 5 prefixes x 4 start-after values, ListBuckets, ListParts. Distinct states by canonical hash (model + disk with upload UUIDs renamed, mtimes dropped).", u.buckets, u.keys, u.contents.iter().map(|c| c.len()).collect::<Vec<_>>(), u.max_uploads_ever, u.max_parts),
         exhaustive: !capped,
         extra: json!({
             "states": states.max(1), "transitions": transitions.max(1), "traces_validated_against_impl": transitions,
